@@ -169,9 +169,10 @@ structure InvLate (r : Nat) (x : LSess) : Prop where
     x.tripFrom + r ≤ x.s.closeT ∧ x.tripFrom ∈ x.remChecks ∧ x.s.closeT ∈ x.remChecks ∧
       ∀ a ∈ x.arrivals, ¬ (x.tripFrom < a ∧ a < x.s.closeT)
   spaced : Spaced r x.remChecks
+  pend : x.held = false → x.pending = []
 
 theorem invLate_start (l r tl n : Nat) : InvLate r (startWithL l r tl n) := by
-  refine ⟨rfl, ?_, ?_, ?_, ?_, ?_, ?_, trivial⟩
+  refine ⟨rfl, ?_, ?_, ?_, ?_, ?_, ?_, trivial, fun _ => rfl⟩
   · intro a ha; cases ha
   · intro _; show 0 + r ≤ 0 + r; exact Nat.le_refl _
   · intro h; cases h
@@ -183,7 +184,7 @@ theorem invLate_start (l r tl n : Nat) : InvLate r (startWithL l r tl n) := by
 theorem invLate_frame (r : Nat) (x : LSess) (s' : Sess) (h : InvLate r x)
     (h1 : s'.now = x.s.now) (h2 : s'.rem = x.s.rem) (h3 : s'.closed = x.s.closed) (h4 : s'.closeT = x.s.closeT)
     (h5 : s'.closedByMon = x.s.closedByMon) : InvLate r { x with s := s' } := by
-  refine ⟨?_, ?_, ?_, ?_, ?_, ?_, ?_, h.spaced⟩
+  refine ⟨?_, ?_, ?_, ?_, ?_, ?_, ?_, h.spaced, h.pend⟩
   · show s'.rem.interval = r; rw [h2]; exact h.intv
   · intro a ha; show a ≤ s'.now; rw [h1]; exact h.arrLe a ha
   · intro hr; show x.lastCheck + r ≤ s'.now + s'.rem.left; rw [h1, h2]; exact h.due (by rw [← h2]; exact hr)
@@ -199,7 +200,7 @@ theorem invLate_appClose (r : Nat) (x : LSess) (h : InvLate r x) : InvLate r { x
   | true => rw [close_of_closed _ _ hc]; exact h
   | false =>
     rw [close_of_open _ _ hc]
-    refine ⟨h.intv, h.arrLe, ?_, h.quiet, h.first, ?_, ?_, h.spaced⟩
+    refine ⟨h.intv, h.arrLe, ?_, h.quiet, h.first, ?_, ?_, h.spaced, h.pend⟩
     · intro hr; cases hr
     · intro _; exact Nat.le_refl _
     · intro _ hm; cases hm
@@ -207,7 +208,7 @@ theorem invLate_appClose (r : Nat) (x : LSess) (h : InvLate r x) : InvLate r { x
 /-- bytes are handed to `data_received` on a running loop -/
 theorem invLate_recv (r : Nat) (x : LSess) (k : RecvKind) (h : InvLate r x) :
     InvLate r { x with s := x.s.dataReceived k, arrivals := x.s.now :: x.arrivals } := by
-  refine ⟨h.intv, ?_, h.due, ?_, ?_, h.closeLe, ?_, h.spaced⟩
+  refine ⟨h.intv, ?_, h.due, ?_, ?_, h.closeLe, ?_, h.spaced, h.pend⟩
   · intro a ha
     rcases List.mem_cons.mp ha with rfl | ha
     · exact Nat.le_refl _
@@ -224,9 +225,9 @@ theorem invLate_recv (r : Nat) (x : LSess) (k : RecvKind) (h : InvLate r x) :
     · exact t4 a ha
 
 /-- bytes reach the socket while the loop is held up -/
-theorem invLate_buffer (r : Nat) (x : LSess) (k : RecvKind) (h : InvLate r x) :
+theorem invLate_buffer (r : Nat) (x : LSess) (k : RecvKind) (h : InvLate r x) (hh : x.held = true) :
     InvLate r { x with pending := x.pending ++ [k], arrivals := x.s.now :: x.arrivals } := by
-  refine ⟨h.intv, ?_, h.due, ?_, h.first, h.closeLe, ?_, h.spaced⟩
+  refine ⟨h.intv, ?_, h.due, ?_, h.first, h.closeLe, ?_, h.spaced, fun hf => absurd (hh ▸ hf : true = false) (by simp)⟩
   · intro a ha
     rcases List.mem_cons.mp ha with rfl | ha
     · exact Nat.le_refl _
@@ -245,7 +246,7 @@ theorem invLate_buffer (r : Nat) (x : LSess) (k : RecvKind) (h : InvLate r x) :
 theorem invLate_hold (r : Nat) (x : LSess) (h : InvLate r x) : InvLate r { x with s := passSess x.s, held := true } := by
   have hrem : (passSess x.s).rem = passMon x.s.rem := rfl
   have hnow : (passSess x.s).now = x.s.now + 1 := rfl
-  refine ⟨?_, ?_, ?_, ?_, ?_, ?_, ?_, h.spaced⟩
+  refine ⟨?_, ?_, ?_, ?_, ?_, ?_, ?_, h.spaced, fun hf => by cases hf⟩
   · show (passMon x.s.rem).interval = r
     unfold passMon; split <;> exact h.intv
   · intro a ha; have := h.arrLe a ha; show a ≤ x.s.now + 1; omega
@@ -266,5 +267,235 @@ theorem invLate_hold (r : Nat) (x : LSess) (h : InvLate r x) : InvLate r { x wit
     unfold passMon; split <;> exact this
   · intro hc; have := h.closeLe hc; show x.s.closeT ≤ x.s.now + 1; omega
   · exact h.trip
+
+
+theorem lastCheck_mem (x : LSess) (h : x.remChecks ≠ []) : x.lastCheck ∈ x.remChecks := by
+  unfold LSess.lastCheck
+  cases hl : x.remChecks with
+  | nil => exact absurd hl h
+  | cons c rest => simp
+
+/-- the hold-up ends: the bytes that waited in the socket are handed over -/
+theorem invLate_flush (r : Nat) (x : LSess) (h : InvLate r x) :
+    InvLate r { x with s := handover x.s x.pending, held := false, pending := [] } := by
+  refine ⟨?_, ?_, ?_, ?_, ?_, ?_, ?_, h.spaced, fun _ => rfl⟩
+  · show (handover x.s x.pending).rem.interval = r; rw [handover_interval]; exact h.intv
+  · intro a ha; show a ≤ (handover x.s x.pending).now; rw [handover_now]; exact h.arrLe a ha
+  · intro hr
+    show x.lastCheck + r ≤ (handover x.s x.pending).now + (handover x.s x.pending).rem.left
+    rw [handover_now, handover_left]; exact h.due (by rw [← handover_running x.s x.pending]; exact hr)
+  · intro hp _
+    by_cases hq : x.pending = []
+    · have hp' : (handover x.s x.pending).rem.pinged = false := hp
+      rw [hq, handover_nil] at hp'
+      exact h.quiet hp' hq
+    · have hp' : (handover x.s x.pending).rem.pinged = false := hp
+      rw [handover_pinged x.s x.pending hq] at hp'; cases hp'
+  · intro he; exact handover_pinged_mono _ _ (h.first he)
+  · intro hc
+    show (handover x.s x.pending).closeT ≤ (handover x.s x.pending).now
+    rw [handover_closeT, handover_now]; exact h.closeLe (by rw [← handover_closed x.s x.pending]; exact hc)
+  · intro hc hm
+    show x.tripFrom + r ≤ (handover x.s x.pending).closeT ∧ _ ∧ (handover x.s x.pending).closeT ∈ _ ∧
+      ∀ a ∈ x.arrivals, ¬ (x.tripFrom < a ∧ a < (handover x.s x.pending).closeT)
+    rw [handover_closeT]
+    exact h.trip (by rw [← handover_closed x.s x.pending]; exact hc) (by rw [← handover_closedByMon x.s x.pending]; exact hm)
+
+theorem noteCheck_false (x : LSess) (s' : Sess) (hc : s'.closed = x.s.closed) : x.noteCheck false s' = { x with s := s' } := by
+  unfold LSess.noteCheck
+  have : (!x.s.closed && s'.closed && s'.closedByMon) = false := by rw [hc]; cases x.s.closed <;> simp
+  simp [this]
+
+/-- the remote monitor does not check at this instant: its sleep merely comes closer to its deadline -/
+theorem invLate_nocheck (r : Nat) (x : LSess) (s' : Sess) (h : InvLate r x)
+    (h1 : x.s.now ≤ s'.now) (hi : s'.rem.interval = x.s.rem.interval) (hp : s'.rem.pinged = x.s.rem.pinged)
+    (hl : s'.rem.running = true → x.lastCheck + r ≤ s'.now + s'.rem.left)
+    (h3 : s'.closed = x.s.closed) (h4 : s'.closeT = x.s.closeT) (h5 : s'.closedByMon = x.s.closedByMon) :
+    InvLate r { x with s := s' } := by
+  refine ⟨?_, ?_, hl, ?_, ?_, ?_, ?_, h.spaced, h.pend⟩
+  · show s'.rem.interval = r; rw [hi]; exact h.intv
+  · intro a ha; have := h.arrLe a ha; show a ≤ s'.now; omega
+  · intro hp' hq; exact h.quiet (by rw [← hp]; exact hp') hq
+  · intro he; show s'.rem.pinged = true; rw [hp]; exact h.first he
+  · intro hc; have := h.closeLe (by rw [← h3]; exact hc); show s'.closeT ≤ s'.now; omega
+  · intro hc hm
+    show x.tripFrom + r ≤ s'.closeT ∧ _ ∧ s'.closeT ∈ _ ∧ ∀ a ∈ x.arrivals, ¬ (x.tripFrom < a ∧ a < s'.closeT)
+    rw [h4]; exact h.trip (by rw [← h3]; exact hc) (by rw [← h5]; exact hm)
+
+/-- **the remote monitor checks** at instant `sL.now`, at least one interval after its previous check -/
+theorem invLate_check (r : Nat) (x : LSess) (sL : Sess) (h : InvLate r x)
+    (h1 : x.s.now ≤ sL.now) (h2 : sL.rem = x.s.rem) (h3 : sL.closed = x.s.closed) (h4 : sL.closeT = x.s.closeT)
+    (h5 : sL.closedByMon = x.s.closedByMon) (hlate : x.lastCheck + r ≤ sL.now) (hq : x.pending = []) :
+    InvLate r (x.noteCheck true (remCheck sL)) := by
+  have hnow := remCheck_now sL
+  unfold LSess.noteCheck
+  simp only [if_true]
+  refine ⟨?_, ?_, ?_, ?_, ?_, ?_, ?_, ?_, h.pend⟩
+  · show (remCheck sL).rem.interval = r; rw [remCheck_interval, h2]; exact h.intv
+  · intro a ha; have := h.arrLe a ha; show a ≤ (remCheck sL).now; omega
+  · intro hr
+    show (remCheck sL).now + r ≤ (remCheck sL).now + (remCheck sL).rem.left
+    rw [remCheck_left sL hr, h2, h.intv]; exact Nat.le_refl _
+  · intro _ _ a ha; have := h.arrLe a ha; show a ≤ (remCheck sL).now; omega
+  · intro he; cases he
+  · intro hc
+    show (remCheck sL).closeT ≤ (remCheck sL).now
+    rcases remCheck_flags sL with ⟨f1, f2, _⟩ | ⟨_, _, _, f4, _⟩
+    · have := h.closeLe (by rw [← h3, ← f1]; exact hc); omega
+    · omega
+  · intro hc hm
+    rcases remCheck_flags sL with ⟨f1, f2, f3⟩ | ⟨g1, g2, g3, g4, g5⟩
+    · have hc' : x.s.closed = true := by rw [← h3, ← f1]; exact hc
+      have hm' : x.s.closedByMon = true := by rw [← h5, ← f3]; exact hm
+      have hcond : (!x.s.closed && (remCheck sL).closed && (remCheck sL).closedByMon) = false := by simp [hc']
+      obtain ⟨t1, t2, t3, t4⟩ := h.trip hc' hm'
+      show (if (!x.s.closed && (remCheck sL).closed && (remCheck sL).closedByMon) = true then x.lastCheck else x.tripFrom) + r
+          ≤ (remCheck sL).closeT ∧ _ ∧ (remCheck sL).closeT ∈ _ ∧ ∀ a ∈ x.arrivals, ¬ (_ < a ∧ a < (remCheck sL).closeT)
+      rw [hcond, f2, h4]
+      exact ⟨t1, List.mem_cons_of_mem _ t2, List.mem_cons_of_mem _ t3, t4⟩
+    · have hc' : x.s.closed = false := by rw [← h3]; exact g1
+      have hcond : (!x.s.closed && (remCheck sL).closed && (remCheck sL).closedByMon) = true := by simp [hc', g3, g5]
+      have hpf : x.s.rem.pinged = false := by rw [← h2]; exact g2
+      have hne : x.remChecks ≠ [] := by
+        intro he; have := h.first he; rw [hpf] at this; cases this
+      show (if (!x.s.closed && (remCheck sL).closed && (remCheck sL).closedByMon) = true then x.lastCheck else x.tripFrom) + r
+          ≤ (remCheck sL).closeT ∧ _ ∧ (remCheck sL).closeT ∈ _ ∧ ∀ a ∈ x.arrivals, ¬ (_ < a ∧ a < (remCheck sL).closeT)
+      rw [hcond, g4]
+      refine ⟨hlate, List.mem_cons_of_mem _ (lastCheck_mem x hne), ?_, ?_⟩
+      · rw [hnow]; exact List.mem_cons_self
+      · intro a ha hh
+        have := h.quiet hpf hq a ha
+        simp only [if_true] at hh; omega
+  · show x.remChecks.headD 0 + r ≤ (remCheck sL).now ∧ Spaced r x.remChecks
+    refine ⟨?_, h.spaced⟩
+    have : x.lastCheck = x.remChecks.headD 0 := rfl
+    omega
+
+
+/-! ### the events -/
+
+theorem remDue_congr (s s' : Sess) (b : Nat) (h : s'.rem = s.rem) : remDue s' b = remDue s b := by
+  unfold remDue; rw [h]
+
+theorem resume_held (x : LSess) : x.resume.held = false := by
+  unfold LSess.resume
+  split
+  · rfl
+  · next h => simpa using h
+
+/-- the late timers run (local, then remote) on a loop whose waiting bytes have been handed over -/
+theorem invLate_fire (r : Nat) (x1 : LSess) (hf : InvLate r x1) (hq : x1.pending = []) :
+    InvLate r (x1.noteCheck (remDue x1.s 0) (fireRemote (fireLocal x1.s))) := by
+  have hrem : (fireLocal x1.s).rem = x1.s.rem := fireLocal_rem _
+  cases hd : remDue x1.s 0 with
+  | false =>
+    rw [fireRemote_idle _ (by rw [remDue_congr _ _ _ hrem]; exact hd), noteCheck_false _ _ (fireLocal_closed _)]
+    exact invLate_frame r x1 _ hf (fireLocal_now _) hrem (fireLocal_closed _) (fireLocal_closeT _) (fireLocal_closedByMon _)
+  | true =>
+    rw [fireRemote_due _ (by rw [remDue_congr _ _ _ hrem]; exact hd)]
+    have hd' := hd
+    simp only [remDue, Nat.le_zero_eq, Bool.and_eq_true, decide_eq_true_eq] at hd'
+    have hdue := hf.due hd'.1
+    exact invLate_check r x1 _ hf (by rw [fireLocal_now]; exact Nat.le_refl _) hrem (fireLocal_closed _) (fireLocal_closeT _)
+      (fireLocal_closedByMon _) (by rw [fireLocal_now]; omega) hq
+
+theorem invLate_resume (r : Nat) (x : LSess) (h : InvLate r x) : InvLate r x.resume := by
+  unfold LSess.resume
+  split
+  · exact invLate_fire r _ (invLate_flush r x h) rfl
+  · exact h
+
+theorem invLate_baseStep (r : Nat) (x : LSess) (e : Ev) (h : InvLate r x) (hh : x.held = false) : InvLate r (x.baseStep e) := by
+  cases e with
+  | adv =>
+    show InvLate r (x.noteCheck (remDue x.s 1) (x.s.bump.tickLocal.tickRemote))
+    have hrem : x.s.bump.tickLocal.rem = x.s.rem := by rw [tickLocal_rem]; rfl
+    have hnow : x.s.bump.tickLocal.now = x.s.now + 1 := by rw [tickLocal_now]; rfl
+    have hcl : x.s.bump.tickLocal.closed = x.s.closed := by rw [tickLocal_closed]; rfl
+    have hct : x.s.bump.tickLocal.closeT = x.s.closeT := by rw [tickLocal_closeT]; rfl
+    have hcm : x.s.bump.tickLocal.closedByMon = x.s.closedByMon := by rw [tickLocal_closedByMon]; rfl
+    cases hd : remDue x.s 1 with
+    | true =>
+      rw [tickRemote_due _ (by rw [remDue_congr _ _ _ hrem]; exact hd)]
+      have hd' := hd
+      simp only [remDue, Bool.and_eq_true, decide_eq_true_eq] at hd'
+      have hdue := h.due hd'.1
+      exact invLate_check r x _ h (by omega) hrem hcl hct hcm (by omega) (h.pend hh)
+    | false =>
+      rcases tickRemote_notdue _ (by rw [remDue_congr _ _ _ hrem]; exact hd) with e1 | ⟨e1, e2, e3⟩
+      · rw [e1, noteCheck_false _ _ hcl]
+        refine invLate_nocheck r x _ h (by omega) (by rw [hrem]) (by rw [hrem]) ?_ hcl hct hcm
+        intro hr
+        rw [hrem] at hr ⊢
+        have := h.due hr
+        have hl : 1 < x.s.rem.left := by
+          simp only [remDue, hr, Bool.true_and, decide_eq_false_iff_not] at hd; omega
+        omega
+      · have hcl' : ({ x.s.bump.tickLocal with rem := { x.s.bump.tickLocal.rem with left := x.s.bump.tickLocal.rem.left - 1 } } : Sess).closed
+            = x.s.closed := hcl
+        rw [e3, noteCheck_false _ _ hcl']
+        rw [hrem] at e1 e2
+        refine invLate_nocheck r x _ h (by show x.s.now ≤ x.s.bump.tickLocal.now; omega) ?_ ?_ ?_ hcl hct hcm
+        · show x.s.bump.tickLocal.rem.interval = _; rw [hrem]
+        · show x.s.bump.tickLocal.rem.pinged = _; rw [hrem]
+        · intro _
+          show x.lastCheck + r ≤ x.s.bump.tickLocal.now + (x.s.bump.tickLocal.rem.left - 1)
+          have := h.due e1
+          rw [hrem, hnow]; omega
+  | recv k => exact invLate_recv r x k h
+  | send => exact invLate_frame r x _ h rfl rfl rfl rfl rfl
+  | sendHb => exact invLate_frame r x _ h rfl rfl rfl rfl rfl
+  | sendFailed => exact invLate_frame r x _ h rfl rfl rfl rfl rfl
+  | close => exact invLate_appClose r x h
+
+theorem step_base_cases (x : LSess) (e : Ev) :
+    (∃ k, e = .recv k ∧ x.held = true ∧
+      x.step (.base e) = { x with pending := x.pending ++ [k], arrivals := x.s.now :: x.arrivals }) ∨
+    x.step (.base e) = x.resume.baseStep e := by
+  cases e with
+  | recv k =>
+    cases hh : x.held with
+    | true => left; exact ⟨k, rfl, rfl, by simp [LSess.step, recvKind?, hh]⟩
+    | false => right; simp [LSess.step, recvKind?, hh]
+  | adv => right; simp [LSess.step, recvKind?]
+  | send => right; simp [LSess.step, recvKind?]
+  | sendHb => right; simp [LSess.step, recvKind?]
+  | sendFailed => right; simp [LSess.step, recvKind?]
+  | close => right; simp [LSess.step, recvKind?]
+
+theorem invLate_step (r : Nat) (x : LSess) (e : LEv) (h : InvLate r x) : InvLate r (x.step e) := by
+  cases e with
+  | hold => exact invLate_hold r x h
+  | resume => exact invLate_resume r x h
+  | base e =>
+    rcases step_base_cases x e with ⟨k, _, hheld, he⟩ | he
+    · rw [he]; exact invLate_buffer r x k h hheld
+    · rw [he]; exact invLate_baseStep r x.resume e (invLate_resume r x h) (resume_held x)
+
+theorem runL_nil (x : LSess) : x.run [] = x := rfl
+theorem runL_cons (x : LSess) (e : LEv) (evs : List LEv) : x.run (e :: evs) = (x.step e).run evs := rfl
+
+theorem invLate_run (l r tl n : Nat) (evs : List LEv) : InvLate r ((startWithL l r tl n).run evs) := by
+  suffices h : ∀ x, InvLate r x → InvLate r (x.run evs) from h _ (invLate_start l r tl n)
+  induction evs with
+  | nil => intro x h; exact h
+  | cons e evs ih => intro x h; rw [runL_cons]; exact ih _ (invLate_step r x e h)
+
+/-! ### histories without hold-ups are histories of Model/Monitor.lean -/
+
+theorem run_base_s (evs : List Ev) (x : LSess) (hh : x.held = false) :
+    (x.run (evs.map LEv.base)).s = x.s.run evs ∧ (x.run (evs.map LEv.base)).held = false := by
+  induction evs generalizing x with
+  | nil => exact ⟨rfl, hh⟩
+  | cons e evs ih =>
+    have hres : x.resume = x := by unfold LSess.resume; simp [hh]
+    have hstep : (x.step (.base e)).s = x.s.step e ∧ (x.step (.base e)).held = false := by
+      rcases step_base_cases x e with ⟨k, _, hheld, _⟩ | he
+      · rw [hh] at hheld; cases hheld
+      · rw [he, hres]; cases e <;> exact ⟨rfl, hh⟩
+    rw [List.map_cons, runL_cons, run_cons]
+    have := ih (x.step (.base e)) hstep.2
+    rw [hstep.1] at this
+    exact this
 
 end NasdaqModel.MonitorLate
